@@ -386,6 +386,25 @@ def run_unary(case):
             c.cmp(f"shape={s}", "equivalent von Mises value", got, ref)
             if not np.array_equal(A, A0):
                 c.bad(f"shape={s}/inputs", "inputs modified", "modified", "unchanged")
+        # numeric regimes: purely hydrostatic tensors (definition: exactly 0, the deviator of p 1 vanishes for representable p)
+        # and hydrostatic-dominated ones p 1 + D with |D| ~ 1, p up to 2^27 (the definition loses eps p / |D| ~ 1e-8 at most)
+        if d == 3:
+            ps = np.array([0.0, 1.0, -7.0, 3.0e3, 2.0**24, -(2.0**27), 1.0e-12])
+            Ahyd = ps * np.eye(3).reshape(3, 3, 1)
+            got = np.asarray(fm.equivalent_von_mises(Ahyd), float)
+            c.trans += 1
+            if not (np.isfinite(got).all() and np.abs(got).max() <= 1e-12 * np.abs(ps).max()):
+                c.bad("hydrostatic", "von Mises value of p 1 must be 0 (finite) for every p", got.tolist(), [0.0] * len(ps), 1e-12)
+            D = generic((3, 3, 6), seed, 95)
+            D = 0.5 * (D + np.swapaxes(D, 0, 1))
+            D = np.round(D * 8) / 8  # exactly representable next to 2^27
+            for pk in (2.0**20, -(2.0**24), 2.0**27):
+                Ad = pk * np.eye(3).reshape(3, 3, 1) + D
+                got = np.asarray(fm.equivalent_von_mises(Ad), float)
+                dvD = D - (D[0, 0] + D[1, 1] + D[2, 2]) / 3 * np.eye(3).reshape(3, 3, 1)
+                ref = np.sqrt(1.5 * loop_einsum("ij,ij->", dvD, dvD))
+                c.trans += 1
+                c.cmp(f"hydrostatic-dominated/p={pk}", "von Mises value of p 1 + D equals the one of D (deviator taken first, as the definition says)", got, ref, 1e-6)
     elif name == "reshape_ravel":
         A = generic((d, d, d, d, 2, 3), seed, 90)
         R = fm.ravel(A)
